@@ -136,7 +136,12 @@ def de_value(I, ty, doc):
     if pre and (pre + '::deserialize') in I.crate.index:
         I.encoded.add(pre + '::deserialize')
         return I.run(pre + '::deserialize', [ModelDeserializer(doc)])
-    # a type local to a derive expansion (e.g. the wrapper of `deserialize_with`)
+    # a type local to a derive expansion: the `__DeserializeWith` wrapper serde-derive generates for `deserialize_with`;
+    # its Deserialize impl is declared inside the visitor body that is being executed
+    if last == '__DeserializeWith' and I.fstack:
+        fs = _nested(I, I.fstack[-1], 'deserialize')
+        if len(fs) == 1:
+            return _run(I, fs[0], [ModelDeserializer(doc)])
     raise Unsupported('Deserialize of ' + ty)
 
 
@@ -344,3 +349,97 @@ def m_missing_field(I, path, args):
 def deserialize_document(I, js, ty):
     """entry point used as the `json_decode` hook: run the crate's own Deserialize impl for `ty` on the document"""
     return de_value(I, ty, js.doc)
+
+
+# ----------------------------------------------------------------------------- RFC 3339 text forms (custom timestamp deserializers)
+
+class Rfc3339Str:
+    """the text of an RFC 3339 timestamp: an instant (DateTime Adt: secs, nanos) plus the form it is written in —
+    number of fractional digits (0, 3, 6, 9; None = as many as needed, trimmed) and the UTC designator ('Z' or '+00:00').
+    Two texts are equal iff instant and form are equal.  Only what code that re-renders and compares needs."""
+    rust_type = 'String'
+
+    def __init__(self, dt, digits, zone):
+        self.dt, self.digits, self.zone = dt, digits, zone
+
+    def eq_model(self, other):
+        from .core import val_eq, z_and
+        other = deref(other)
+        if not isinstance(other, Rfc3339Str):
+            if isinstance(other, str):
+                raise Unsupported('comparison of an RFC 3339 text with a concrete string')
+            return False
+        if self.digits != other.digits or self.zone != other.zone:
+            return False
+        return z_and(val_eq(self.dt.fields[0], other.dt.fields[0]), val_eq(self.dt.fields[1], other.dt.fields[1]))
+
+    def display_model(self, I):
+        return 'rfc3339-text'
+
+    def __repr__(self):
+        return f'Rfc3339Str({self.dt!r}, digits={self.digits}, {self.zone})'
+
+
+def rfc3339_form(doc):
+    """(digits, zone) a document's timestamp text is written in; this implementation's own form by default"""
+    form = doc[2] if len(doc) > 2 and doc[2] else 'auto-Z'
+    return {'auto-Z': (0, 'Z'), 'millis-Z': (3, 'Z'), 'micros-Z': (6, 'Z'), 'nanos-Z': (9, 'Z'), 'offset': (0, '+00:00')}[form]
+
+
+def _autosi_digits(I, nanos):
+    """SecondsFormat::AutoSi: 0, 3, 6 or 9 digits, the fewest that render the nanoseconds exactly"""
+    if isinstance(nanos, int):
+        return 0 if nanos == 0 else 3 if nanos % 1_000_000 == 0 else 6 if nanos % 1000 == 0 else 9
+    if I.ctx.branch(nanos == 0):
+        return 0
+    if I.ctx.branch(nanos % 1_000_000 == 0):
+        return 3
+    if I.ctx.branch(nanos % 1000 == 0):
+        return 6
+    return 9
+
+
+@R.model(r'^<(std::string::)?String as (\w+::)*Deserialize>::deserialize$', r'^<&str as (\w+::)*Deserialize>::deserialize$')
+def m_string_deserialize(I, path, args):
+    d = deref(args[0])
+    if not isinstance(d, ModelDeserializer):
+        raise Unsupported('String::deserialize from ' + repr(d)[:60])
+    if d.doc[0] == 'rfc3339':
+        dg, zone = rfc3339_form(d.doc)
+        return Ok(Rfc3339Str(d.doc[1], dg, zone))
+    return de_value(I, 'String', d.doc)
+
+
+@R.model(r'^DateTime::parse_from_rfc3339$', r'^chrono::DateTime::parse_from_rfc3339$', r'^<DateTime as (std::str::)?FromStr>::from_str$')
+def m_parse_from_rfc3339(I, path, args):
+    s = deref(args[0])
+    if isinstance(s, Rfc3339Str):
+        return Ok(clone_val(s.dt))
+    if isinstance(s, (str, SegStr, TokStr)):
+        if isinstance(s, str):
+            raise Unsupported('RFC 3339 parsing of a concrete string')
+        return Err(Opaque('chrono::ParseError'))
+    raise Unsupported('parse_from_rfc3339 of ' + repr(s)[:60])
+
+
+@R.model(r'^DateTime::with_timezone$', r'^chrono::DateTime::with_timezone$', r'^DateTime::to_utc$')
+def m_with_timezone(I, path, args):
+    return clone_val(deref(args[0]))
+
+
+@R.model(r'^DateTime::to_rfc3339_opts$', r'^chrono::DateTime::to_rfc3339_opts$', r'^DateTime::to_rfc3339$')
+def m_to_rfc3339(I, path, args):
+    dt = deref(args[0])
+    if path.split('::')[-1].startswith('to_rfc3339_opts'):
+        fmt, use_z = deref(args[1]), deref(args[2])
+        name = fmt.name if isinstance(fmt, Adt) and fmt.name in ('Secs', 'Millis', 'Micros', 'Nanos', 'AutoSi') else \
+            (['Secs', 'Millis', 'Micros', 'Nanos', 'AutoSi'][fmt.variant] if isinstance(fmt, Adt) and fmt.variant < 5 else str(getattr(fmt, 'path', fmt)).split('::')[-1])
+        digits = {'Secs': 0, 'Millis': 3, 'Micros': 6, 'Nanos': 9}.get(name)
+        if digits is None:
+            if name != 'AutoSi':
+                raise Unsupported('SecondsFormat ' + repr(fmt))
+            digits = _autosi_digits(I, dt.fields[1])
+        if not isinstance(use_z, bool):
+            raise Unsupported('symbolic use_z')
+        return Rfc3339Str(clone_val(dt), digits, 'Z' if use_z else '+00:00')
+    return Rfc3339Str(clone_val(dt), _autosi_digits(I, dt.fields[1]), '+00:00')
